@@ -181,7 +181,9 @@ def _isinst(eng, v, nm, n):
             if nm == "int" and ty is TBool:
                 return True
             return ty is table[nm]
-        if nm in ("list", "tuple", "Sequence"):
+        if nm in ("list", "tuple"):
+            return isinstance(ty, TSeq) and not ty.nodup   # an OrderedSet / dict key view is neither a list nor a tuple
+        if nm == "Sequence":
             return isinstance(ty, TSeq)
         if nm in ("dict", "Mapping"):
             return isinstance(ty, TDict)
